@@ -89,7 +89,7 @@ CHECKS = {
           'Fc from Nxxtop, symmetrisation, partition.'),
     design_ref='DESIGN.md section 10.6 (C16)',
     note=('cone matrices: stated for the kernel\'s own quadrature (radius frozen per meridian section; exact for cylinders); fsdt_sanders_bcn has no strain function '
-          'and no Gram representation at hand: its positive semi-definiteness is not decided; ConeCyl.lb is under contract in C05, ConeCyl.eigen/static are not; '
+          'and no Gram representation at hand: its positive semi-definiteness is not decided; ConeCyl.lb and ConeCyl.eigen are under contract in C05, ConeCyl.static (delegation to Analysis.static, C09) is not; '
           'the geier1997/shadmehri2012 modules are not covered; 60 known findings in the two fsdt bcn modules; the compiled extensions cannot be rebuilt '
           'here, so numeric replays show the installed binary'),
     technique='contracts + symbolic execution of the extracted .pyx (generic-iteration schema, local path exploration); trigonometric normal form; formal differentiation; z3 for index cases and divisors'),
@@ -179,8 +179,9 @@ CHECKS = {
           'on every returning path the matrices handed to the solver (KG as operator, K as metric, restricted to the non-null columns of K after the '
           'fall-back), the solver keywords, the back-transform lambda=-1/mu (with the lemma (K+lambda KG)v=0), the scatter of the modes into the rows of '
           'the non-null columns (zeros elsewhere) and the argument pass-through of Panel.lb to calc_k0/calc_kG0 are checked.  ConeCyl.lb is executed the same way for '
-          'the four load cases (series block [num0:, num0:], fixed part of the geometric stiffness added to K, both solver attempts, zero rows for the prescribed amplitudes).'),
-    design_ref='DESIGN.md section 4 (C05/C06)', note=EIG_NOTE + '; 13 known findings (requested count not smaller than the active set), 1 fixed defect',
+          'the four load cases (series block [num0:, num0:], fixed part of the geometric stiffness added to K, both solver attempts, zero rows for the prescribed amplitudes), and so is '
+          'ConeCyl.eigen, a second copy of that wrapper.'),
+    design_ref='DESIGN.md section 4 (C05/C06)', note=EIG_NOTE + '; 21 known findings (requested count not smaller than the active set: lb, Panel.lb, ConeCyl.lb, ConeCyl.eigen), 1 fixed defect',
     technique='contracts + symbolic execution with abstract shapes; z3 (LIA) shape obligations; assumed solver contracts'),
  'C06': dict(
     category='proof',
